@@ -1483,6 +1483,29 @@ def scalar_prefix_program(prog) -> Optional[str]:
     return None
 
 
+def map_element_dispatch_program(prog) -> Optional[str]:
+    """trigger of F27: the mapped expression chooses a branch by a key the Map assigns, so its elements
+    have different key sets; when one element's explain() fails, Map.explain falls back to a static
+    approximation that follows the caller's (not the elements') branch"""
+    by = {n["id"]: n for n in prog["nodes"]}
+    for n in prog["nodes"]:
+        if n["k"] != "map":
+            continue
+        mapped = {k for k, _ in n["its"]}
+        e = by.get(n["e"])
+        if e and e["k"] == "switch":
+            d = by.get(e["d"])
+            if d and d["k"] == "option" and d["key"] in mapped:
+                return "F27"
+    return None
+
+
+def c11_classify(prog, meta, what):
+    # (an effect that reads an option is no excuse here: explain() does list the effect's keys)
+    return (brace_resubstitution_program(prog) or param_in_option_value_program(prog) or scalar_prefix_program(prog)
+            or map_element_dispatch_program(prog))
+
+
 def c10_classify(prog, meta, what):
     return (effect_reads_program(prog) or brace_resubstitution_program(prog) or param_in_option_value_program(prog)
             or scalar_prefix_program(prog))
@@ -1527,6 +1550,47 @@ def c11_programs(rng, tier) -> List[Item]:
     items += gen_items(rng, cfg, sizes(tier, 200, 2500), hist_explain)
     cfgm = Cfg(raising=False, domains=False, all_options=False, templates=True, total_fns=True, map_weight=4.0, self_map=0.7)
     items += gen_items(rng, cfgm, sizes(tier, 60, 600), hist_explain)
+    # effects whose callback reads an option of its own: explain() lists it, validate() requires it
+    cfge = Cfg(raising=False, domains=False, all_options=False, templates=True, total_fns=True, effect_reads_options=True, maps=False)
+    items += gen_items(rng, cfge, sizes(tier, 60, 600), hist_explain)
+    items += pinned_dispatch_items(rng, sizes(tier, 40, 400))
+    return items
+
+
+def pinned_dispatch_items(rng, n) -> List[Item]:
+    """a branch chosen by a key that a wrapper pins (pre-set, forced or default) while the caller supplies another
+    value for it: explain/keys/validate must follow the wrapper's rule, and the branches need different options"""
+    items = []
+    for _ in range(n):
+        P = Prog()
+        vals = rng.sample(["x", "y", "z"], 3)
+        leaves = [P.option(k) for k in rng.sample(["A", "B", "C", "D", "S.X"], 3)]
+        style = rng.choice(["with", "dataset", "with_method"])
+        pin = {"K": vals[0]}
+        force = rng.random() < 0.6
+        if style == "with":
+            sw = P.switch(P.option("K", bare=True), [(vals[0], leaves[0]), (vals[1], leaves[1])], leaves[2] if rng.random() < 0.5 else None)
+            root = P.with_options(sw, pin, force=force)
+        else:
+            table = [(vals[0], P.dataset([("a", leaves[0])])), (vals[1], P.dataset([("a", leaves[1])]))]
+            kw = {"options": pin} if force else {"default_options": pin}
+            if style == "with_method":
+                kw = {}
+            root = P.dataset([("a", leaves[2])], dispatch=P.option("K", bare=True), table=table, abstract=rng.random() < 0.3, **kw)
+            if style == "with_method":
+                root = P.derive(root, pin, default=not force)
+        recs = []
+        base = {"A": 1, "B": 2, "C": 3, "D": 4, "S": {"X": 5}}
+        for kv in [None] + vals + ["q"]:
+            full = dict(base) if kv is None else dict(base, K=kv)
+            for drop in [[], rng.sample(["A", "B", "C", "D", "S"], 2), ["A", "B", "C", "D", "S"]]:
+                o = sort_json({k: v for k, v in full.items() if k not in drop})
+                b = len(P.ops)
+                P.op("explain", root, o)
+                P.op("keys", root, o)
+                P.op("validate", root, o)
+                recs.append({"x": b, "k": b + 1, "v": b + 2})
+        items.append((P.to_json(), {"explain": recs}))
     return items
 
 
@@ -1569,7 +1633,7 @@ def c11_oracle(prog, meta, impl, model):
     return out
 
 
-C11 = CoreProp("C11", ("explain", "keys", "validate"), c11_programs, c11_oracle, classify=c10_classify,
+C11 = CoreProp("C11", ("explain", "keys", "validate"), c11_programs, c11_oracle, classify=c11_classify,
                nontrivial=nontrivial_eval,
                rule="random graphs x (empty dictionary, increasing sub-dictionaries of a sufficient one, the full one): "
                     "explain/keys/validate on fresh graphs")
